@@ -50,6 +50,9 @@ struct Cell {
   /// the network towards the receiver does not move from before the first send until after
   /// close()/term() has returned (only with LINGER=0: with an infinite linger waiting is correct)
   stalled: bool,
+  /// Some((at, n)): messages at..at+n are 48 bytes instead of `size` (a small message heading big
+  /// ones makes the session pull far more than one wire batch into its carry-over)
+  small_run: Option<(usize, usize)>,
 }
 
 #[derive(Debug, Default, Clone)]
@@ -93,7 +96,11 @@ fn run_cell(c: Cell) -> world::WorldResult<Out> {
     }
     let mut out = Out::default();
     for i in 0..c.queued {
-      let mut body = payload(i as u32 + 1, c.size.max(8));
+      let sz = match c.small_run {
+        Some((at, n)) if i >= at && i < at + n => 48,
+        _ => c.size.max(8),
+      };
+      let mut body = payload(i as u32 + 1, sz);
       body[..8].copy_from_slice(&(i as u64).to_be_bytes());
       if a.send(Msg::from_vec(body)).await.is_ok() {
         out.accepted += 1;
@@ -110,6 +117,7 @@ fn run_cell(c: Cell) -> world::WorldResult<Out> {
       let b = b.clone();
       let late = c.late_reader;
       let pair = c.pair;
+      let slow_network = c.stalled && c.linger == -1;
       tokio::spawn(async move {
         if late {
           tokio::time::sleep(Duration::from_secs(2)).await;
@@ -117,7 +125,9 @@ fn run_cell(c: Cell) -> world::WorldResult<Out> {
         let mut got = vec![];
         let mut corrupt = false;
         let mut idle = 0;
-        while idle < 3 {
+        // (a network that only moves again 500 ms after close was issued: the reader must outwait it)
+        let patience = if slow_network { 30 } else { 3 };
+        while idle < patience {
           match b.recv_multipart().await {
             Ok(fr) => {
               idle = 0;
@@ -163,6 +173,11 @@ fn run_cell(c: Cell) -> world::WorldResult<Out> {
       // the application's own handle goes away before term() runs
     }
     drop(a);
+    if let (true, -1, Some(l)) = (c.stalled, c.linger, &link) {
+      // a slow network, not a dead one: it moves again half a second after close()/term() was issued
+      tokio::time::sleep(Duration::from_millis(500)).await;
+      l.stall(world::Way::AtoB, false);
+    }
     match tokio::time::timeout(Duration::from_secs(600), closer).await {
       Ok(Ok(r)) => {
         out.close_returned = true;
@@ -192,7 +207,7 @@ fn run_cell(c: Cell) -> world::WorldResult<Out> {
 fn judge(c: &Cell, o: &Out) -> Vec<(String, String, String)> {
   let mut v = vec![];
   let class = format!("{:?}:{}:linger{}", c.pair, match c.tr { Tr::Zmtp(64) => "zmtp-64B-link", Tr::Zmtp(_) => "zmtp", Tr::Inproc => "inproc" }, c.linger);
-  let ctxd = format!("{:?}, {}{}", c.how, if c.late_reader { "late reader" } else { "eager reader" }, if c.stalled { ", network stalled" } else { "" });
+  let ctxd = format!("{:?}, {}{}{}", c.how, if c.late_reader { "late reader" } else { "eager reader" }, if c.stalled && c.linger == -1 { ", network stalled until 500 ms after close" } else if c.stalled { ", network stalled" } else { "" }, match c.small_run { Some((at, n)) => format!(", messages {}..{} are 48 bytes", at, at + n), None => String::new() });
   if o.corrupt {
     v.push(("corrupted-or-truncated-message".into(), class.clone(), "a received message does not match what was sent".into()));
   }
@@ -217,7 +232,7 @@ fn judge(c: &Cell, o: &Out) -> Vec<(String, String, String)> {
       // LINGER = -1 and a connected peer that is reading when close is issued: everything accepted
       // must arrive. (A peer application that only starts reading later is not 'reading'; what the
       // receiving socket does with unread messages when the sender disconnects is not LINGER's business.)
-      if c.pair != Pair::PubSub && !c.late_reader && !c.stalled && o.received.len() != o.accepted {
+      if c.pair != Pair::PubSub && !c.late_reader && o.received.len() != o.accepted {
         v.push((
           "linger-infinite-lost-messages".into(),
           class.clone(),
@@ -247,11 +262,29 @@ fn cells(tier: Tier) -> Vec<Cell> {
                 if tier == Tier::Quick && how == How::DropThenTerm && (queued == 0 || size == 300) {
                   continue;
                 }
-                v.push(Cell { pair, tr, linger, queued, size, late_reader, how, hwm, stalled: false });
+                v.push(Cell { pair, tr, linger, queued, size, late_reader, how, hwm, stalled: false, small_run: None });
                 if linger == 0 && tr != Tr::Inproc && !late_reader && queued > 0 {
-                  v.push(Cell { pair, tr, linger, queued, size, late_reader, how, hwm, stalled: true });
+                  v.push(Cell { pair, tr, linger, queued, size, late_reader, how, hwm, stalled: true, small_run: None });
                 }
               }
+            }
+          }
+        }
+      }
+    }
+  }
+  // mixed sizes with an infinite linger: what the session holds in its carry-over when Stop arrives
+  for pair in [Pair::PushPull, Pair::DealerRouter] {
+    for (queued, hwm) in [(40usize, 1000), (200, 1000)] {
+      let mut runs = vec![(0usize, 4usize), (queued / 2, 4)];
+      if tier == Tier::Thorough {
+        runs.extend([(0, 1), (1, 1), (queued / 2, 1), (queued - 8, 4), (8, 2)]);
+      }
+      for small_run in runs {
+        for how in [How::Close, How::Term] {
+          for stalled in [false, true] {
+            for size in if tier == Tier::Thorough { vec![64 * 1024usize, 70 * 1024, 20 * 1024] } else { vec![64 * 1024usize] } {
+              v.push(Cell { pair, tr: Tr::Zmtp(1 << 16), linger: -1, queued, size, late_reader: false, how, hwm, stalled, small_run: Some(small_run) });
             }
           }
         }
